@@ -337,16 +337,17 @@ class Tensor:
 
     # ---- shape manipulation ------------------------------------------------------------------
     def squeeze(self, axis=None):
-        keep = [k for k, s in enumerate(self.shape) if not dim_is(s, 1)]
-        if len(keep) == self.ndim:
-            return self
+        keep = []
         for k, s in enumerate(self.shape):
-            if k not in keep:
+            if dim_is(s, 1):
                 continue
             if not isinstance(unwrap(s), int):
-                # a symbolic extent might be 1: numpy would squeeze it
-                if not _provably_not_one(s):
-                    raise Unsupported("squeeze of a symbolic extent that may be 1")
+                # a symbolic extent may be 1 (numpy would drop the axis): case split
+                if bool(S.cmp("==", s, 1)):
+                    continue
+            keep.append(k)
+        if len(keep) == self.ndim:
+            return self
         shape = [self.shape[k] for k in keep]
         fz = self.frozen()
         nd = self.ndim
